@@ -67,6 +67,17 @@ def near_miss(rnd):
     return s
 
 
+def odd_hex(rnd):
+    """'#' followed by what int(x, 16) / float() would accept but CSS does not: signs, blanks, underscores, prefixes."""
+    n = rnd.choice([3, 6, 6, 6, 8])
+    body = list("%0*x" % (n, rnd.randrange(16 ** n)))
+    for _ in range(rnd.randrange(1, 3)):
+        body[rnd.randrange(len(body)) if rnd.random() < 0.5 else 0] = rnd.choice(["-", "+", " ", "_", "x", "X", ".", "e", "\t", "０", "٣"])
+    if rnd.random() < 0.2:
+        body[:2] = list("0x")
+    return "#" + "".join(body)
+
+
 def random_unicode(rnd):
     n = rnd.choice([0, 1, 2, 3, 5, 8, 20])
     pools = [(0x20, 0x7e), (0x0, 0x1f), (0x80, 0x2ff), (0x660, 0x669), (0xff10, 0xff19), (0xd800, 0xdfff), (0x1f600, 0x1f64f), (0x2000, 0x206f)]
@@ -118,7 +129,7 @@ def gen_input(rnd, i):
     if k < 5:
         return "unicode", random_unicode(rnd)
     if k < 6:
-        return "special", special_string(rnd)
+        return ("special", special_string(rnd)) if rnd.random() < 0.5 else ("odd_hex", odd_hex(rnd))
     return "sequence", sequence(rnd)
 
 
@@ -208,6 +219,8 @@ def work(shard, rec):
                 break
         if not v and i % 12 == 0:
             bulk_with_invalid(rec, lib, rnd, x, case)
+        if cls == "sequence" and i % 10 == 6:
+            bulk_equal_twins(rec, lib, x, case)
         if len(rec.samples) < 3 and not v and cls in ("near_miss", "sequence"):
             rec.sample({"input": repr(x), "is_valid": False, "error": lib.Color(x).error})
 
@@ -244,6 +257,49 @@ def bulk_with_invalid(rec, lib, rnd, x, case):
             _SINGLE[k] = lib.make_readable_bulk([e])[0]
         if res[j] != _SINGLE[k]:
             rec.violation(f"make_readable_bulk: entry {e!r} gives {res[j]!r} next to invalid entry {bad!r} but {_SINGLE[k]!r} alone", case)
+
+
+def retyped(x):
+    """The same sequence with its number types changed (int <-> float <-> bool): equal under ==, maybe another colour or
+    another validity for the parser."""
+    out = []
+    for v in x:
+        if isinstance(v, bool):
+            out.append(int(v))
+        elif isinstance(v, int) and abs(v) < 2 ** 53:
+            out.append(float(v))
+        elif isinstance(v, float) and v == v and abs(v) < 2 ** 53 and v == int(v):
+            out.append(bool(int(v)) if int(v) in (0, 1) else int(v))
+        else:
+            out.append(v)
+    return type(x)(out)
+
+
+def bulk_equal_twins(rec, lib, x, case):
+    """x next to a twin that compares equal to it: each entry keeps its own stand-alone result."""
+    if not isinstance(x, (tuple, list)) or not x:
+        return
+    try:
+        tw = retyped(x)
+        if tw != x or all(type(a) is type(b) for a, b in zip(tw, x)):
+            return
+    except Exception:
+        return
+    for order in ((x, tw), (tw, x)):
+        entries = [(order[0], "#000"), (order[1], "#000"), ("#fff", order[0]), ("#fff", order[1])]
+        try:
+            res = lib.make_readable_bulk(entries)
+            alone = [lib.make_readable_bulk([e])[0] for e in entries]
+        except BaseException as e:
+            if isinstance(e, (KeyboardInterrupt, SystemExit, MemoryError)):
+                raise
+            rec.violation(f"make_readable_bulk with equal-comparing twins {order!r} raised {type(e).__name__}: {e}", case)
+            return
+        rec.count("bulk_equal_twins_judged")
+        if repr(res) != repr(alone):
+            k = next(i for i in range(len(entries)) if repr(res[i]) != repr(alone[i]))
+            rec.violation(f"make_readable_bulk: entry {entries[k]!r} gives {res[k]!r} next to its equal-comparing twin but {alone[k]!r} alone", case)
+            return
 
 
 def replay(case):
